@@ -2,9 +2,9 @@ from propdefs.common import *
 
 PROP = {
     "bin": "c16",
-    "coq_targets": ["theories/Mem/C16Check"],
+    "coq_targets": ["theories/Mem/C16Check", "theories/Mem/BackingRegions"],
     "n": {"quick": 3000, "thorough": 60000},
-    "theorems": [],
+    "theorems": ["sections_disjoint", "abs_set_memory_step", "abs_set_memory", "get8_spec", "permissions_spec", "get_spec", "get32_spec", "set32_spec", "region_access", "find_sec_is_cover", "never_covered_unmapped"],
     "rule": "one xoshiro256** stream per (seed,index): endianness, arena (60% at 0, 20% at 0x100000, 20% in the last 256 bytes below 2^64), "
             "1-12 operations (80% set_memory with length 0-40 biased to 0/1/2/4/40 and to addresses aligned with earlier regions, 20% set32 mostly inside "
             "earlier regions), then sections() and get8/permissions/get32/get sweeps over the hull of the history +-6; "
@@ -12,6 +12,10 @@ PROP = {
     "trusted_base": [KERNEL, HARNESS_TB],
     "assumptions": ["u64 additions are overflow-checked (harness build profile); a region's exclusive end a+len is below 2^64"],
     "partial": [],
-    "level_text": "",
-    "level_note": "",
+    "level_text": "Unbounded Coq theorems (all histories, all addresses below 2^64, any permission type) that the Gallina transcription of "
+                  "backing::Memory refines a last-writer-wins byte/permission map, keeps its sections sorted, disjoint and non-empty, reads wide values "
+                  "bytewise across sections without panicking, and confines 32-bit accesses to one region; plus an in-kernel differential tie of that "
+                  "transcription to the Rust code on generated histories (model = observed, and observed = specification).",
+    "level_note": "Trusted: Coq kernel + vm_compute; the harness/pretty-printer; the model is hand-written and tied to the code differentially, not by translation. "
+                  "Regions whose exclusive end is 2^64 or more (the last byte of the address space) are outside the theorems: the code's u64 end arithmetic overflows there.",
 }
